@@ -10,6 +10,7 @@ From FGV Require Import Base.Util Base.Bond Base.NX Base.NXMulti Model.Proxy Mod
   Spec.ProxySpec Spec.ProxyGenSpec Spec.ProxyGenCheck Spec.ProxyRefCheck Spec.ProxyParserCheck Spec.ProxyBondSpec Gen.ProxyDA
   Proofs.ProxyGenProofs Proofs.ProxyGenMain Proofs.ProxyGenCheckProofs Proofs.ProxyDAProofs
   Proofs.ProxyBondsTop Proofs.ProxyRefCheckProofs Proofs.ProxyDASigs Proofs.NXMultiCopyFacts Proofs.ProxyGenTop.
+From FGV Require Import Proofs.GenParsedDA.
 Open Scope string_scope.
 Open Scope Z_scope.
 Set Warnings "-abstract-large-number".
@@ -154,6 +155,12 @@ Example C14_doc_example :
   = ([[Some "C"; Some "C"]; [Some "C"; Some "O"]; [Some "C"; Some "N"]], GDone, 3%nat, true).
 Proof. vm_compute. reflexivity. Qed.
 
+(* the pattern graphs of Gen/ProxyDA.v (dumped from the live module objects through the real parser) are exactly
+   what the Coq model of the parser returns on the pattern strings: the Diels-Alder theorems speak about the
+   strings of the shipped collections read through the parser model that C01 ties to fgutils.parse *)
+Theorem C14_DA_patterns_parsed : da_patterns_parsedb = true.
+Proof. exact da_patterns_parsed. Qed.
+
 Print Assumptions C14_generator_stops.
 Print Assumptions C14_count.
 Print Assumptions C14_exhaustive.
@@ -171,3 +178,4 @@ Print Assumptions C14_DA_count_neg.
 Print Assumptions C14_DA_signatures.
 Print Assumptions C14_DA_no_parallel.
 Print Assumptions C14_doc_example.
+Print Assumptions C14_DA_patterns_parsed.
